@@ -471,13 +471,21 @@ def thread_flags(f):
             continue
         if len(preds[j]) < 2 or len(J["s"]) > 3:
             continue
-        if not all(x[0] == "=" and len(x[1]) == 1 and x[2][0] == "use" and (x[2][1][0] == "k" or len(x[2][1][1]) == 1) for x in J["s"]):
+        def _pure(x):
+            if x[0] != "=" or len(x[1]) != 1:
+                return False
+            if x[2][0] == "use":
+                return x[2][1][0] == "k" or len(x[2][1][1]) == 1
+            return x[2][0] == "un" and x[2][1] == "Not" and x[2][2][0] != "k" and len(x[2][2][1]) == 1       # `if !flag`
+        if not all(_pure(x) for x in J["s"]):
             continue
         # the flag: chase the switch operand back through J's copies
         flag = J["t"][1][1][0]
         for x in reversed(J["s"]):
-            if x[1] == [flag] and x[2][1][0] != "k":
-                flag = x[2][1][1][0]
+            if x[1] == [flag]:
+                o_ = x[2][1] if x[2][0] == "use" else x[2][2]
+                if o_[0] != "k":
+                    flag = o_[1][0]
         for p in preds[j]:
             P = bbs[p]
             if p == j or P["t"] != ["goto", j]:
@@ -494,13 +502,23 @@ def thread_flags(f):
                 d = x[1][0]
                 nd = len(f["locals"])
                 f["locals"].append(f["locals"][d] if d < len(f["locals"]) else "?")
-                src = x[2][1]
+                neg_ = x[2][0] == "un"
+                src = x[2][2] if neg_ else x[2][1]
                 if src[0] != "k" and src[1][0] in ren:
                     src = [src[0], [ren[src[1][0]]]]
                 if src[0] != "k" and src[1][0] in env:
                     rv = json.loads(json.dumps(env[src[1][0]]))
                 else:
                     rv = ["use", src]
+                if neg_:
+                    if rv[0] == "use" and rv[1][0] == "k" and isinstance(rv[1][1].get("v"), int):
+                        k_ = dict(rv[1][1])
+                        k_["v"] = 0 if k_["v"] else 1
+                        rv = ["use", ["k", k_]]
+                    elif rv[0] == "bin" and rv[1] in ("Eq", "Ne", "Lt", "Le", "Gt", "Ge"):
+                        rv = ["bin", {"Eq": "Ne", "Ne": "Eq", "Lt": "Ge", "Ge": "Lt", "Gt": "Le", "Le": "Gt"}[rv[1]], rv[2], rv[3]]
+                    else:
+                        rv = ["un", "Not", src]
                 ren[d] = nd
                 env[nd] = rv
                 stmts.append(["=", [nd], rv, x[3] if len(x) > 3 else None])
@@ -718,7 +736,7 @@ def closure_env(pf, closure_name, through=None):
     tail = closure_name.rsplit("::", 1)[-1]
     for i, j, p, rv, line in assignments(pf):
         if rv[0] == "agg" and rv[1].startswith("closure:") and rv[1].endswith(tail) and closure_name.endswith(rv[1][len("closure:"):].rsplit("::", 1)[-1]):
-            return [describe(pf, o, depth=12, through=through if through is not None else TRANSPARENT) for o in rv[3]]
+            return [describe(pf, o, depth=24, through=through if through is not None else TRANSPARENT) for o in rv[3]]
     return None
 
 
@@ -1139,7 +1157,8 @@ def describe_place(f, p):
     name = dbg_name(f, l)
     if 0 < l <= f["argc"]:
         if _DESC["canon"] and name != "self" and not _DESC["argnames"]:
-            base = "arg:p%d" % l
+            # a closure's own parameters are as anonymous as locals: soft tokens (ignored by guards_match)
+            base = ("arg:S_p%d" if f.get("kind") == "Closure" else "arg:p%d") % l
         else:
             base = "arg:%s" % (name or ("#%d" % l))
     elif name and not _DESC["canon"]:
@@ -1726,6 +1745,8 @@ NOISE_TOKENS = {"call", "arg", "var", "const", "agg", "tmp", "fn", "deref", "bra
 
 def leaves(desc):
     """Order-free token set of a description (identifiers only, noise removed)."""
+    if _DESC.get("canon"):
+        desc = simplify_desc(desc)          # `x.ok_or(E)?` / `x.map_err(f)?` are x: the error value is not part of the condition
     toks = set(t for t in re.findall(r"[A-Za-z_][A-Za-z0-9_]*", desc) if t not in NOISE_TOKENS)
     toks |= set("#" + n for n in re.findall(r"const:(-?\d+)", desc))
     return sorted(toks)
@@ -1783,6 +1804,11 @@ def controlling_guards(f, cfg, block):
     those conditions: [descriptor, ...]. Falls back to the single dominating condition."""
     g = controlling_guard(f, cfg, block)
     preds = sorted(set(p for p in cfg.pred[block] if p in cfg.reach))
+    hops = 0
+    while len(preds) == 1 and f["bbs"][preds[0]]["t"][0] == "goto" and hops < 4:      # the arms may meet a few plain jumps earlier
+        block = preds[0]
+        preds = sorted(set(p for p in cfg.pred[block] if p in cfg.reach))
+        hops += 1
     if len(preds) < 2:
         return [g]
     dom = cfg.dominators()
@@ -1882,7 +1908,7 @@ PLUMBING_TOKENS = {"find", "any", "all", "filter", "filter_map", "map", "count",
                    "last", "first", "get", "get_mut", "then", "then_some", "ok", "and_then", "is_ok", "is_err", "unwrap_or", "reduce", "peekable",
                    "by_ref", "chain", "ok_or_else", "unwrap_or_else", "map_or", "filter_map_ok", "flatten", "index", "as_slice", "as_mut", "borrow",
                    "alt", "Break", "Err", "None", "Residual", "from_residual", "T", "E", "A", "I", "F", "U", "B", "K", "V", "closure", "rep", "find_map",
-                   "try_fold", "copied", "cloned", "as_deref", "deref_mut", "as_mut_slice", "to_vec", "to_owned", "borrow_mut", "start", "end"}
+                   "try_fold", "copied", "cloned", "as_deref", "conv", "S_conv", "S_branch", "S_ok_or", "S_as_ref", "S_deref", "S_into", "S_from", "deref_mut", "as_mut_slice", "to_vec", "to_owned", "borrow_mut", "start", "end"}
 NEGATORS = {"is_none"}
 OP_TOKENS = {"Add", "Sub", "Mul", "Div", "Rem", "Shl", "Shr", "BitAnd", "BitOr", "BitXor", "AddWithOverflow", "SubWithOverflow", "MulWithOverflow",
              "AddUnchecked", "SubUnchecked", "MulUnchecked", "ShlUnchecked", "ShrUnchecked", "Neg", "Offset"}
@@ -1960,7 +1986,9 @@ def closure_tokens(name):
                 toks |= set("=%s" % v for v, tg in t[2])
         for i, c, args, dest, tgt, line in calls(cf):
             toks.add(callee_name(c).rsplit("::", 1)[-1])
-        return _clean(toks)
+        # what a closure computes is secondary to what the guard tests (a `.map(|w| w.len())` on the way does not change
+        # whether the Option is None): its tokens are *soft* (prefix `~`, ignored by guards_match) except tested variants
+        return sorted(t if t.startswith("=") else "S_" + t for t in _clean(toks))
     finally:
         _DESC["cdepth"] -= 1
 
@@ -2073,14 +2101,20 @@ def _ids_ops(g):
     ids, ops = set(), set()
     for key in ("a", "b", "tokens", "ctx"):
         for t in g.get(key, []) or []:
+            if _soft(t):
+                continue
             (ops if is_op_token(t) else ids).add(t)
     return ids, ops
 
 
+def _soft(t):
+    return t.startswith("S_")
+
+
 def _sup(new, old):
-    """token list `new` keeps every token of `old`; operator / constant tokens must be identical."""
-    n_ids = {t for t in new if not is_op_token(t)}
-    o_ids = {t for t in old if not is_op_token(t)}
+    """token list `new` keeps every token of `old`; operator / constant tokens must be identical; soft tokens are ignored."""
+    n_ids = {t for t in new if not is_op_token(t) and not _soft(t)}
+    o_ids = {t for t in old if not is_op_token(t) and not _soft(t)}
     n_ops = {t for t in new if is_op_token(t)}
     o_ops = {t for t in old if is_op_token(t)}
     return n_ids >= o_ids and n_ops == o_ops
@@ -2111,9 +2145,10 @@ def guard_match(old, new):
         return None
     if ko in ("none", "plumbing") or kn in ("none", "plumbing", "closure-unresolved"):
         return None
-    oi, _ = _ids_ops(old)
-    ni, _ = _ids_ops(new)
-    return "shape-changed" if oi and ni >= oi else None
+    oi, oo = _ids_ops(old)
+    ni, no = _ids_ops(new)
+    # a comparison against a constant (`count != 1`) has no equivalent without that constant (`any(..)` is weaker)
+    return "shape-changed" if oi and ni >= oi and no >= oo else None
 
 
 def guards_match(old_list, new_list):
